@@ -1,0 +1,183 @@
+//! Verification hooks.  Compiled only with `--cfg rescrv_blue_verif`; with the guard off this
+//! module does not exist and no code path changes.
+//!
+//! * an event log with a global order (observer only): every atomic access of the list reports
+//!   what it read or wrote (`load`, `store`, `cas` with its outcome, `alloc`, `head`);
+//! * controlled scheduling: a thread that has called `enroll(tid)` with `tid > 0` parks in
+//!   `point()` right before each of its atomic accesses until the scheduler thread `release`s it, so
+//!   that exactly one enrolled thread runs between two scheduling decisions;
+//! * an allocation registry (observer only): node allocations and releases are recorded and every
+//!   dereference of a node pointer is checked against it;
+//! * the one input that is not an argument: `force_heights` replaces the random tower heights of
+//!   the next inserts on this thread by given ones (no queue, no change).
+
+use std::cell::{Cell, RefCell};
+use std::collections::{HashMap, VecDeque};
+use std::sync::atomic::{AtomicU64, Ordering};
+use std::sync::{Condvar, Mutex};
+
+/// (sequence number, thread as enrolled, tag, arguments)
+pub type Event = (u64, u64, &'static str, [u64; 5]);
+
+thread_local! {
+    static TID: Cell<u64> = const { Cell::new(0) };
+    static HEIGHTS: RefCell<VecDeque<usize>> = const { RefCell::new(VecDeque::new()) };
+}
+
+static EVENTS_ON: AtomicU64 = AtomicU64::new(0);
+static EVENTS: Mutex<Vec<Event>> = Mutex::new(Vec::new());
+
+/// Name the calling thread.  Threads with `tid > 0` take part in controlled scheduling.
+pub fn enroll(tid: u64) {
+    TID.with(|t| t.set(tid));
+}
+
+pub fn events_enable(on: bool) {
+    EVENTS_ON.store(on as u64, Ordering::SeqCst);
+}
+
+/// Record one event (public so that a harness can put its call/return markers in the same order).
+pub fn emit(tag: &'static str, args: [u64; 5]) {
+    if EVENTS_ON.load(Ordering::SeqCst) != 0 {
+        let mut ev = EVENTS.lock().unwrap();
+        let seq = ev.len() as u64;
+        ev.push((seq, TID.with(|t| t.get()), tag, args));
+    }
+}
+
+pub fn take_events() -> Vec<Event> {
+    std::mem::take(&mut *EVENTS.lock().unwrap())
+}
+
+/////////////////////////////////////// controlled scheduling //////////////////////////////////////
+
+struct Control {
+    parked: Vec<u64>,
+    retired: usize,
+    go: u64,
+}
+
+static CONTROL_ON: AtomicU64 = AtomicU64::new(0);
+static CONTROL: Mutex<Control> = Mutex::new(Control {
+    parked: Vec::new(),
+    retired: 0,
+    go: 0,
+});
+static CONTROL_CV: Condvar = Condvar::new();
+
+/// Switch controlled scheduling on or off and forget who was parked or retired.
+pub fn control(on: bool) {
+    let mut c = CONTROL.lock().unwrap();
+    c.parked.clear();
+    c.retired = 0;
+    c.go = 0;
+    CONTROL_ON.store(on as u64, Ordering::SeqCst);
+    CONTROL_CV.notify_all();
+}
+
+/// Called right before an atomic access: an enrolled thread waits here for its turn.
+pub fn point() {
+    let tid = TID.with(|t| t.get());
+    if tid == 0 || CONTROL_ON.load(Ordering::SeqCst) == 0 {
+        return;
+    }
+    let mut c = CONTROL.lock().unwrap();
+    c.parked.push(tid);
+    CONTROL_CV.notify_all();
+    while c.go != tid && CONTROL_ON.load(Ordering::SeqCst) != 0 {
+        c = CONTROL_CV.wait(c).unwrap();
+    }
+    c.go = 0;
+}
+
+/// An enrolled thread has finished what it was given to do.
+pub fn retire() {
+    let mut c = CONTROL.lock().unwrap();
+    c.retired += 1;
+    CONTROL_CV.notify_all();
+}
+
+/// Scheduler side: wait until each of `n` enrolled threads is parked or retired; who is parked.
+pub fn wait_quiescent(n: usize) -> Vec<u64> {
+    let mut c = CONTROL.lock().unwrap();
+    while c.parked.len() + c.retired < n {
+        c = CONTROL_CV.wait(c).unwrap();
+    }
+    let mut p = c.parked.clone();
+    p.sort();
+    p
+}
+
+/// Scheduler side: let the parked thread `tid` perform its next atomic access.
+pub fn release(tid: u64) {
+    let mut c = CONTROL.lock().unwrap();
+    c.parked.retain(|x| *x != tid);
+    c.go = tid;
+    CONTROL_CV.notify_all();
+}
+
+/////////////////////////////////////////// tower heights //////////////////////////////////////////
+
+/// The next inserts on this thread use these heights instead of random ones.
+pub fn force_heights(heights: &[usize]) {
+    HEIGHTS.with(|h| h.borrow_mut().extend(heights.iter().copied()));
+}
+
+pub(crate) fn forced_height() -> Option<usize> {
+    HEIGHTS.with(|h| h.borrow_mut().pop_front())
+}
+
+//////////////////////////////////////// allocation registry ///////////////////////////////////////
+
+static REGISTRY_ON: AtomicU64 = AtomicU64::new(0);
+static REGISTRY: Mutex<Option<HashMap<usize, bool>>> = Mutex::new(None);
+static VIOLATIONS: Mutex<Vec<(&'static str, usize)>> = Mutex::new(Vec::new());
+
+/// Start (forgetting everything recorded before) or stop recording.
+pub fn registry_enable(on: bool) {
+    let mut r = REGISTRY.lock().unwrap();
+    *r = if on { Some(HashMap::new()) } else { None };
+    VIOLATIONS.lock().unwrap().clear();
+    REGISTRY_ON.store(on as u64, Ordering::SeqCst);
+}
+
+pub(crate) fn reg_alloc(ptr: usize) {
+    if REGISTRY_ON.load(Ordering::SeqCst) != 0 {
+        if let Some(r) = REGISTRY.lock().unwrap().as_mut() {
+            r.insert(ptr, true);
+        }
+    }
+}
+
+pub(crate) fn reg_free(ptr: usize) {
+    if REGISTRY_ON.load(Ordering::SeqCst) != 0 {
+        if let Some(r) = REGISTRY.lock().unwrap().as_mut() {
+            if r.insert(ptr, false) == Some(false) {
+                VIOLATIONS.lock().unwrap().push(("double-free", ptr));
+            }
+        }
+    }
+}
+
+pub(crate) fn reg_deref(ptr: usize) {
+    if REGISTRY_ON.load(Ordering::SeqCst) != 0 {
+        if let Some(r) = REGISTRY.lock().unwrap().as_ref() {
+            if r.get(&ptr) == Some(&false) {
+                VIOLATIONS.lock().unwrap().push(("deref-after-free", ptr));
+            }
+        }
+    }
+}
+
+/// (nodes alive, nodes released, violations seen so far)
+pub fn registry_report() -> (usize, usize, Vec<(&'static str, usize)>) {
+    let r = REGISTRY.lock().unwrap();
+    let (live, freed) = match r.as_ref() {
+        Some(r) => (
+            r.values().filter(|x| **x).count(),
+            r.values().filter(|x| !**x).count(),
+        ),
+        None => (0, 0),
+    };
+    (live, freed, VIOLATIONS.lock().unwrap().clone())
+}
